@@ -1,6 +1,7 @@
 import Driver.Loop
 import IrohModel.Common.Hex
 import IrohModel.C29.Model
+import IrohModel.C29.ResolveModel
 open IrohModel IrohModel.C29
 
 /-- `i<id>[@delay]` / `e<id>[@delay]` -/
@@ -61,6 +62,80 @@ def stamp (ts : List Nat) (tEnd : Nat) (ps : List Poll) : List String :=
         if p == .ready none then tok :: go ts' ps 1 else tok :: go ts' ps 0
   go ts ps 0
 
+/-! ### R / RT modes: the stream feeds the resolve plumbing (C29 ∘ C22) -/
+
+/-- `i<id>[w][=a.b.c][@delay]` / `e<id>[@delay]` with the item's content. -/
+def parseElemR (s : String) : Option (Nat × Res × ItemInfo) :=
+  let (body, delay) := match s.splitOn "@" with
+    | [b] => (b, some 0)
+    | [b, d] => (b, d.toNat?)
+    | _ => ("", none)
+  let (head, addrs) : String × Option (List Nat) := match body.splitOn "=" with
+    | [h] => (h, some [])
+    | [h, a] => (h, (a.splitOn ".").mapM String.toNat?)
+    | _ => ("", none)
+  match delay, addrs, head.toList with
+  | some d, some as, 'i' :: ds =>
+    let (ds, w) := match ds.getLast? with
+      | some 'w' => (ds.dropLast, true)
+      | _ => (ds, false)
+    (String.ofList ds).toNat?.map fun n => (d, Res.item n, ⟨as, w⟩)
+  | some d, some [], 'e' :: ds =>
+    if body.contains '=' then none else (String.ofList ds).toNat?.map fun n => (d, Res.err n, ⟨[], false⟩)
+  | _, _, _ => none
+
+def parseServiceR (s : String) : Option (Option (List (Nat × Res × ItemInfo) × Nat)) :=
+  if s == "D" then some none
+  else if s.startsWith "S:" then
+    let body := (s.drop 2).toString
+    let toks := if body == "" then [] else body.splitOn ","
+    let (toks, endDelay) := match toks.getLast? with
+      | some l => if l.startsWith "$" then (toks.dropLast, (l.drop 1).toString.toNat?) else (toks, some 0)
+      | none => (toks, some 0)
+    match endDelay, toks.mapM parseElemR with
+    | some e, some els => some (some (els, e))
+    | _, _ => none
+  else none
+
+def parseServicesR (s : String) : Option (List (Option (List (Nat × Res × ItemInfo) × Nat))) :=
+  if s == "-" then some [] else (s.splitOn "/").mapM parseServiceR
+
+def contentOf (svcs : List (Option (List (Nat × Res × ItemInfo) × Nat))) (x : Nat) : ItemInfo :=
+  let all := svcs.flatMap fun s => match s with
+    | some (els, _) => els
+    | none => []
+  match all.find? (fun e => e.2.1 == Res.item x) with
+  | some e => e.2.2
+  | none => ⟨[], false⟩
+
+def fmtReply (p : Poll) : C22.Reply → String
+  | .ok => "+ok"
+  | .err .noService => "+NS"
+  | .err .noResults => "+NR[" ++ ".".intercalate ((carriedErrors p).map toString) ++ "]"
+
+def kindOf : Poll → String
+  | .pending => "P"
+  | .ready none => "FO"
+  | .ready (some (.item _)) => "I"
+  | .ready (some (.err _)) => "P"
+  | .ready (some (.noResults _)) => "FNR"
+  | .ready (some .noService) => "FNS"
+
+/-- One run of the actor's `address_lookup_stream` arm. -/
+def actorPoll (content : Nat → ItemInfo) (st : St) (a : C22.State) (first next : Inner) :
+    St × C22.State × String × Option C22.Reply :=
+  if !a.lookup then (st, a, "X", none) else
+  let (st', p) := outerPoll st first next 4
+  match opOfPoll content p with
+  | none => (st', a, kindOf p, none)
+  | some op =>
+    let (a', ans) := C22.step a ⟨op, []⟩
+    let rep := ans.head?.map (·.2)
+    (st', a', kindOf p ++ (match rep with | some r => fmtReply p r | none => ""), rep)
+
+def finalR (a : C22.State) : String :=
+  s!"paths={a.paths.length} lookup={if a.lookup then 1 else 0} pending={a.pending.length}"
+
 def handleLine (payload : String) : String :=
   match tokens payload with
   | ["P", sv, sc] =>
@@ -85,6 +160,47 @@ def handleLine (payload : String) : String :=
       let inner := merged.map (fun x => Inner.elem x.2) ++ [.done, .done, .done, .done]
       let (_, ps) := runPolls init inner
       ",".intercalate (stamp (merged.map (·.1)) tEnd ps)
+    | none => "bad-payload"
+  | ["R", sv, sc] =>
+    match parseServicesR sv, parseSched sc with
+    | some svcs, some sched =>
+      let services : List Service := svcs.map fun s => s.map fun (els, _) => els.map (·.2.1)
+      let content := contentOf svcs
+      let a0 := (C22.step (C22.init (!services.isEmpty)) ⟨.resolve [], []⟩).1
+      let st0 := (resolve services).1
+      let live : Live := if services.isEmpty then [] else services
+      let (_, _, a, toks) := (sched ++ [none, none]).foldl
+        (fun (acc : St × Live × C22.State × List String) step =>
+          let (st, ss, a, toks) := acc
+          let (ss', ev) := schedStep ss step
+          let (st', a', tok, _) := actorPoll content st a ev (idle ss')
+          (st', ss', a', tok :: toks)) (st0, live, a0, [])
+      ",".intercalate toks.reverse ++ " | " ++ finalR a
+    | _, _ => "bad-payload"
+  | ["RT", sv] =>
+    match parseServicesR sv with
+    | some svcs =>
+      let services : List Service := svcs.map fun s => s.map fun (els, _) => els.map (·.2.1)
+      let content := contentOf svcs
+      let a0 := (C22.step (C22.init (!services.isEmpty)) ⟨.resolve [], []⟩).1
+      let st0 := (resolve services).1
+      let streams := svcs.filterMap fun s => s.map fun (els, _) => absTimes 0 (els.map fun e => (e.1, e.2.1))
+      let endTimes := svcs.filterMap fun s => s.map fun (els, e) => els.foldl (fun a x => a + x.1) 0 + e
+      let tEnd := endTimes.foldl max 0
+      let fuel := streams.foldl (fun a s => a + s.length) 0
+      let merged := timeMerge fuel streams
+      let events : List (Nat × Inner) := merged.map (fun x => (x.1, Inner.elem x.2)) ++ [(tEnd, .done)]
+      let (_, a, toks, ans) := events.foldl
+        (fun (acc : St × C22.State × List String × Option String) ev =>
+          let (st, a, toks, ans) := acc
+          let (st', a', tok, rep) := actorPoll content st a ev.2 .pending
+          let kind := (tok.splitOn "+").headD ""
+          let toks := if kind == "P" || kind == "X" then toks else s!"{ev.1}:{kind}" :: toks
+          let ans := match ans, rep with
+            | none, some _ => some s!"{ev.1}:{(tok.drop (kind.length + 1)).toString}"
+            | a, _ => a
+          (st', a', toks, ans)) (st0, a0, [], none)
+      ",".intercalate toks.reverse ++ s!" | ans={ans.getD "none"} | " ++ finalR a
     | none => "bad-payload"
   | _ => "bad-payload"
 
